@@ -182,15 +182,16 @@ def run(ctx):
             raise RuntimeError(f'entrants never finished: {sorted(t.get_name() for t in pending)}')
         log.add('oracle', 'all_admitted', len(st['adm']))
 
-    _res, outcome = simulate(ctx, main, max_steps=20_000, epoch=epoch)
+    _res, outcome = simulate(ctx, main, max_steps=6_000, epoch=epoch)
     if outcome == 'cap':
-        # the loop ran 20 000 callbacks (a healthy run needs a few hundred): somebody spins
+        # the loop ran 6000 callbacks (the largest healthy run needs ~700): somebody spins.  The spinner sits at one
+        # exact instant of the grid, so no tolerance here.
         if st['violation'] is not None:
             raise st['violation']
         log.add('oracle', 'step_cap', sorted(st['blocked']))
         if st['blocked']:
             t = int(round(ctx.sim_time * TPS))
-            n = in_window(t, ASAP_TOL_TICKS)
+            n = in_window(t)
             if n < count:
                 fail('asap', 'C24/asap/blocked_with_room_in_window',
                      f'spinning at t={t / TPS:.6f}: {sorted(st["blocked"])} never leave __aenter__ while only {n} of '
